@@ -179,6 +179,14 @@ impl Indexable for ast::Def {
     fn index(&self, ctx: &mut IndexCtx) -> Option<Self::Output> {
         let defset_id = ctx.scopes.current_defset_id();
 
+        // inside a multiclass: what an instantiating defm appends to its own name
+        if let Some(multiclass_id) = ctx.scopes.current_multiclass_id() {
+            if let Some(record_name) = self.name().and_then(|it| relative_record_name(&it)) {
+                let multiclass = ctx.symbol_map.multiclass_mut(multiclass_id);
+                multiclass.add_record_name(record_name);
+            }
+        }
+
         // a name that does not start with an identifier (`def "" : …`, `def !strconcat(…) : …`)
         // is computed: the record is indexed like one without a name
         let name = self.name().and_then(|it| index_name_value(it, ctx));
@@ -233,6 +241,28 @@ fn index_name_value(value: ast::Value, ctx: &mut IndexCtx) -> Option<(EcoString,
     name.filter(|(name, _)| name != "NAME")
 }
 
+/// The name of a def or defm in a multiclass, relative to the name of the instantiating defm:
+/// `I` -> "I", `""` and `NAME` -> "", `NAME#"_x"` -> "_x"; `None` if the name is computed otherwise.
+fn relative_record_name(value: &ast::Value) -> Option<EcoString> {
+    let mut name = String::new();
+    for (index, inner_value) in value.inner_values().enumerate() {
+        if inner_value.suffixes().next().is_some() {
+            return None;
+        }
+        match inner_value.simple_value()? {
+            ast::SimpleValue::Identifier(id) if index == 0 => {
+                let id = id.value()?;
+                if id != "NAME" {
+                    name.push_str(&id);
+                }
+            }
+            ast::SimpleValue::String(string) => name.push_str(&string.value()),
+            _ => return None,
+        }
+    }
+    Some(name.into())
+}
+
 fn index_name_part(inner_value: &ast::InnerValue, ctx: &mut IndexCtx) {
     // in a name, an identifier that denotes nothing stands for itself (`def NAME#_acq_rel`)
     if let Some(ast::SimpleValue::Identifier(id)) = inner_value.simple_value() {
@@ -265,8 +295,38 @@ impl Indexable for ast::Defm {
         };
 
         ctx.scopes.push(ScopeKind::Defm(defm_id));
-        self.parent_class_list()?.index(ctx);
+        if let Some(parent_class_list) = self.parent_class_list() {
+            parent_class_list.index(ctx);
+        }
         ctx.scopes.pop();
+
+        // the records this defm defines: its own name followed by what each record is called in
+        // the multiclasses. Multiclasses are not instantiated: the names are known, no more.
+        let record_names: Vec<EcoString> = ctx
+            .symbol_map
+            .defm(defm_id)
+            .parent_list
+            .clone()
+            .into_iter()
+            .flat_map(|it| ctx.symbol_map.record_names_of_multiclass(it))
+            .collect();
+        let prefix = self.name().and_then(|it| relative_record_name(&it));
+        match (ctx.scopes.current_multiclass_id(), prefix) {
+            // an inner defm: the enclosing multiclass defines these records in its turn
+            (Some(multiclass_id), Some(prefix)) => {
+                let multiclass = ctx.symbol_map.multiclass_mut(multiclass_id);
+                for record_name in record_names {
+                    multiclass.add_record_name(format!("{prefix}{record_name}").into());
+                }
+            }
+            (None, Some(prefix)) => {
+                for record_name in record_names {
+                    ctx.symbol_map
+                        .add_defm_record_name(format!("{prefix}{record_name}").into());
+                }
+            }
+            _ => {}
+        }
 
         None
     }
@@ -482,14 +542,7 @@ impl Indexable for ast::ParentClassList {
                     record.add_parent(class_id);
                 }
             }
-        } else if let Some(multiclass_id) = ctx.scopes.current_multiclass_id() {
-            for class_ref in self.classes() {
-                if let Some(parent_multiclass_id) = resolve_class_ref_as_multiclass(&class_ref, ctx)
-                {
-                    let multiclass = ctx.symbol_map.multiclass_mut(multiclass_id);
-                    multiclass.add_parent(parent_multiclass_id);
-                }
-            }
+        // (a defm inside a multiclass: the defm is the innermost of the two)
         } else if let Some(defm_id) = ctx.scopes.current_defm_id() {
             for class_ref in self.classes() {
                 // after its multiclasses a defm may name classes: the records it defines inherit
@@ -509,6 +562,14 @@ impl Indexable for ast::ParentClassList {
                 {
                     let defm = ctx.symbol_map.defm_mut(defm_id);
                     defm.add_parent(parent_multiclass_id);
+                }
+            }
+        } else if let Some(multiclass_id) = ctx.scopes.current_multiclass_id() {
+            for class_ref in self.classes() {
+                if let Some(parent_multiclass_id) = resolve_class_ref_as_multiclass(&class_ref, ctx)
+                {
+                    let multiclass = ctx.symbol_map.multiclass_mut(multiclass_id);
+                    multiclass.add_parent(parent_multiclass_id);
                 }
             }
         } else {
@@ -927,6 +988,10 @@ impl Indexable for ast::SimpleValue {
                 let Some(symbol_id) = ctx.resolve_id(&name) else {
                     return if name == "NAME" {
                         Some(Type::String)
+                    } else if ctx.symbol_map.is_defm_record_name(&name) {
+                        // a record defined by a defm (`SLLI` of `defm SLL : M` with `def I` in
+                        // M): it exists, its class is not known
+                        Some(Type::Unknown)
                     } else {
                         ctx.error(reference_loc.range, format!("symbol not found: {name}"));
                         None
